@@ -872,7 +872,7 @@ Definition rslv_cancel (r : Z) (w : net) : net * list kc :=
    3 script handler x that is also given the bytes read *)
 Definition hid_wall (s : Z) : Z := - (1000 + 4 * s).
 Definition hid_rall (s : Z) : Z := - (1001 + 4 * s).
-Definition hid_raw (h s bufsize : Z) (loop : bool) : Z := - (1003 + 4 * ((((h * 4096) + s) * 65536 + bufsize) * 2 + (if loop then 1 else 0))).
+Definition hid_raw (h s bufsize : Z) (loop : bool) : Z := - (1003 + 4 * ((((h * 4096) + s) * 1048576 + bufsize) * 2 + (if loop then 1 else 0))).
 Definition hid_app (app k : Z) : Z := - (1002 + 4 * (64 * app + k)).
 
 (* asio::async_write(socket, buffer(data), h): write_some rounds of at most [chunk] bytes *)
